@@ -81,3 +81,30 @@ type (
 	Bool   = atomic.Bool
 	Value  = atomic.Value
 )
+
+// The rest of sync/atomic, forwarded unchanged, so that a tree that starts using
+// another part of the package still builds with the overlay.
+type Uintptr = atomic.Uintptr
+
+type Pointer[T any] struct{ atomic.Pointer[T] }
+
+func AddUint32(addr *uint32, d uint32) uint32     { return atomic.AddUint32(addr, d) }
+func SwapUint32(addr *uint32, v uint32) uint32    { return atomic.SwapUint32(addr, v) }
+func AddUint64(addr *uint64, d uint64) uint64     { return atomic.AddUint64(addr, d) }
+func LoadUint64(addr *uint64) uint64              { return atomic.LoadUint64(addr) }
+func StoreUint64(addr *uint64, v uint64)          { atomic.StoreUint64(addr, v) }
+func SwapUint64(addr *uint64, v uint64) uint64    { return atomic.SwapUint64(addr, v) }
+func AddUintptr(addr *uintptr, d uintptr) uintptr { return atomic.AddUintptr(addr, d) }
+func LoadUintptr(addr *uintptr) uintptr           { return atomic.LoadUintptr(addr) }
+func StoreUintptr(addr *uintptr, v uintptr)       { atomic.StoreUintptr(addr, v) }
+func CompareAndSwapUint64(addr *uint64, old, new uint64) bool {
+	return atomic.CompareAndSwapUint64(addr, old, new)
+}
+func LoadPointer(addr *unsafe.Pointer) unsafe.Pointer     { return atomic.LoadPointer(addr) }
+func StorePointer(addr *unsafe.Pointer, v unsafe.Pointer) { atomic.StorePointer(addr, v) }
+func SwapPointer(addr *unsafe.Pointer, v unsafe.Pointer) unsafe.Pointer {
+	return atomic.SwapPointer(addr, v)
+}
+func CompareAndSwapPointer(addr *unsafe.Pointer, old, new unsafe.Pointer) bool {
+	return atomic.CompareAndSwapPointer(addr, old, new)
+}
